@@ -1,0 +1,23 @@
+//go:build verif
+
+package xerrors
+
+// Contracts for the deductive verifier in /verif (property C19). Only part of the build under the
+// tag `verif`. hasStack(e) abstracts "some error in e's chain is a withStack", which is what
+// errors.Is(e, withStack{...}) computes through withStack.Is (assumed; the bounded stand-in
+// xerrors.WithStack exercises the real errors.Is on five chains).
+
+//@ ufun hasStack(e) bool
+//@ ext errors.Is(err, target) (r)
+//@   ispure
+//@   ensures isa(target, withStack) ==> r == hasStack(err)
+//@ ext runtime.Callers(skip, pc) (n)
+//@   modifies elems(pc)
+//@   ensures 0 <= n && n <= len(pc)
+
+//@ func WithStack
+//@   props C19
+//@   loop 0: invariant skip >= 2 && (cap(ptrs) == 0 || fresh(ptrs))
+//@   ensures err == nil ==> result == nil
+//@   ensures err != nil && hasStack(err) ==> result == err
+//@   ensures err != nil && !hasStack(err) ==> isa(result, withStack) && unbox(result, withStack).inner == err
